@@ -28,6 +28,23 @@ def _matrix():
         'gt': mat(lambda a, b: a > b), 'ge': mat(lambda a, b: a >= b),
         'hash_eq': mat(lambda a, b: hash(a) == hash(b)),
     }
+    # the hash of a version is a property of the version, whatever the object went through: an object that has been
+    # compared / sorted / used as a dictionary key still hashes like a fresh equal object, and is found in a set built
+    # from fresh ones (and the other way round)
+    import copy
+    stable = []
+    for i, m in enumerate(members):
+        used, fresh = TlsProtocolVersion(m), TlsProtocolVersion(m)           # never compared so far
+        h0 = hash(fresh)
+        try:
+            sorted([used] + [copy.deepcopy(o) for o in objs[:6]])
+            _ = [used < o or used > o or used <= o for o in objs]
+            max([used, objs[0], objs[-1]])
+        except Exception:  # pylint: disable=broad-except
+            pass
+        stable.append(bool(hash(used) == h0 and hash(fresh) == h0 and used in {fresh} and fresh in {used} and
+                           len({used, fresh, TlsProtocolVersion(m)}) == 1))
+    ev['hash_stable'] = stable
     return ev, objs
 
 
@@ -98,7 +115,7 @@ def run(rep):
     rep.exhaustive = True
     names = dict(zip(mat['codes'], mat['names']))
     for tag, clause, a, b, c in _bad(res):
-        if clause in ('transitive', 'trichotomy', 'irreflexive', 'eq-is-identity', 'eq-implies-hash',
+        if clause in ('transitive', 'trichotomy', 'irreflexive', 'eq-is-identity', 'eq-implies-hash', 'hash-depends-on-object-history',
                       'gt-is-converse', 'le-consistent', 'ge-consistent', 'rank'):
             who = [names.get(x, x) for x in (a, b, c) if x]
             rep.violation('TlsProtocolVersion|%s|comparison' % clause,
